@@ -32,7 +32,9 @@ class Acc:
             el = '[%s for %s in range(m.shape[%d])]' % (el, 'ijk'[d], d)
         if self.legacy:
             mode = {'s': 'strided', 'c': 'c', 'f': 'fortran'}[self.mode]
-            return 'def %s(object[%s, ndim=%d, mode=%r] m):\n    cdef Py_ssize_t i, j, k\n    return %s\n' % (
+            # extents are taken from a Python memoryview: not every exporter (ctypes) has a .shape attribute
+            el = el.replace('m.shape[', 'shp[')
+            return 'def %s(object[%s, ndim=%d, mode=%r] m):\n    cdef Py_ssize_t i, j, k\n    shp = memoryview(m).shape\n    return %s\n' % (
                 self.name, self.dt, self.ndim, mode, el)
         ax = [':'] * self.ndim
         if self.mode == 'c':
@@ -469,6 +471,8 @@ def classify(acc, case, exp, got, crashed=False):
         return 'values:%s:%s:%s' % (dk, form, case.get('lk'))
     if cls(exp) == 'reject' and mal == 'unbalanced-braces' and cls(got) == 'accept':
         return 'reject->accept:format-with-unbalanced-braces'
+    if cls(exp) == 'reject' and mal == 'dangling-repeat-count' and cls(got) == 'accept':
+        return 'reject->accept:format-with-dangling-repeat-count'
     if cls(exp) == 'reject' and mal == 'zero-repeat-struct' and cls(got) == 'accept':
         return 'reject->accept:zero-repeat-count-before-struct'
     if cls(exp) == 'reject' and mal == 'unterminated-field-name':
